@@ -129,9 +129,9 @@ const NAV: &[&str] = &["first_value", "last_value", "nth_value"];
 const POS: &[&str] = &["row_number", "ntile", "lag", "lead"];
 const RANK: &[&str] = &["rank", "dense_rank", "percent_rank", "cume_dist"];
 
-fn gen_case(rng: &mut Rng, extremes: bool) -> Case {
+fn gen_case(rng: &mut Rng, extremes: bool, focus: bool) -> Case {
     let np = 1 + rng.below(3) as i64;
-    let n = *rng.pick(&[0usize, 1, 2, 5, 12, 30]);
+    let n = if focus { *rng.pick(&[12usize, 30]) } else { *rng.pick(&[0usize, 1, 2, 5, 12, 30]) };
     let kdom = *rng.pick(&[1i64, 3, 8]);
     let rows: Vec<R> = (0..n)
         .map(|i| R {
@@ -146,11 +146,11 @@ fn gen_case(rng: &mut Rng, extremes: bool) -> Case {
             v: if rng.chance(1, 5) { None } else { Some(rng.range(-3, 9)) },
         })
         .collect();
-    let class = if extremes { 2 } else { rng.below(4) };
+    let class = if extremes || focus { 2 } else { rng.below(4) };
     let (f, kind, tiebreak): (&'static str, &'static str, bool) = match class {
         0 => (*rng.pick(AGG), "rows", true),
         1 => (if rng.chance(1, 2) { *rng.pick(NAV) } else { *rng.pick(POS) }, "rows", true),
-        2 => (*rng.pick(AGG), if extremes || rng.chance(1, 2) { "range" } else { "groups" }, false),
+        2 => (*rng.pick(AGG), if extremes || focus || rng.chance(1, 2) { "range" } else { "groups" }, false),
         _ => (*rng.pick(RANK), "rows", false),
     };
     let (mut s, mut e) = (gen_bound(rng, true, extremes && kind == "range"), gen_bound(rng, false, extremes && kind == "range"));
@@ -304,7 +304,10 @@ pub fn run(run: &mut Run, args: &Args) {
     let n = run.budget(700, 20_000);
     for i in 0..n {
         let extremes = i % 10 == 9;
-        let c = gen_case(&mut rng, extremes);
+        // every fourth case: an aggregate over a RANGE frame on 12–30 rows read from the pre-ordered
+        // streaming source (BoundedWindowAggExec in Linear mode, many batch boundaries inside peer groups)
+        let focus = !extremes && i % 4 == 3;
+        let c = gen_case(&mut rng, extremes, focus);
         let order = format!("k {}{}{}", if c.desc { "DESC" } else { "ASC" }, if c.nf { " NULLS FIRST" } else { " NULLS LAST" }, if c.tiebreak { ", id ASC" } else { "" });
         let frame = if c.has_frame { format!(" {} BETWEEN {} AND {}", c.kind.to_uppercase(), c.s.sql(), c.e.sql()) } else { String::new() };
         let sql = format!("SELECT id, {}({}) OVER (PARTITION BY p ORDER BY {order}{frame}) AS w FROM t", c.f, c.fargs_sql);
@@ -312,7 +315,7 @@ pub fn run(run: &mut Run, args: &Args) {
         // a quarter of the ORDER-BY-k-only cases read an "unbounded" streaming source that is already
         // ordered by k: the planner cannot sort it and runs BoundedWindowAggExec in Linear /
         // PartiallySorted input-order mode (or rejects the query at planning)
-        let streaming = !c.tiebreak && !extremes && rng.chance(1, 3); // (keys near the i64 limits stay on the MemTable path: the model encodes that path's overflow behaviour)
+        let streaming = !c.tiebreak && !extremes && (focus || rng.chance(1, 3)); // (keys near the i64 limits stay on the MemTable path: the model encodes that path's overflow behaviour)
         let nparts = if streaming { 1 } else { 1 + rng.below(3) as usize };
         let mut parts: Vec<Vec<R>> = vec![vec![]; nparts];
         for r in &c.rows {
